@@ -542,12 +542,13 @@ package bpmn
 //@ func (*genericTask).run$1
 //@   prop C01 C08 C10 C07
 //@   requires task.wiring != nil
+//@   ensures [a-worker-that-sends-traces-is-a-registered-sender-released-exactly-once-on-exit @C07] count(Call, code("tracing|ISenderHandle.Done")) == old(count(Call, code("tracing|ISenderHandle.Done"))) + 1
 //@   ensures [a-task-request-carries-the-instance-context] forall p int :: old(evlen) <= p && p < evlen && isTrace(ev(p)) && is(evval(ev(p)), *taskTrace) ==>
 //@             evval(ev(p)).(*taskTrace).ctx == ctx
 //@   ensures [at-most-one-task-request-per-activation] count(Trace, *taskTrace) <= old(count(Trace, *taskTrace)) + 1
 //@   ensures [at-most-one-reply] forall p int, q int :: old(evlen) <= p && p < q && q < evlen &&
 //@             isSend(ev(p)) && evch(ev(p)) == m.response ==> !(isSend(ev(q)) && evch(ev(q)) == m.response)
-//@   ensures [reply-is-last] forall p int :: old(evlen) <= p && p < evlen && isSend(ev(p)) && evch(ev(p)) == m.response ==> p == evlen - 1
+//@   ensures [reply-is-last-before-the-worker-releases-its-sender] forall p int :: old(evlen) <= p && p < evlen && isSend(ev(p)) && evch(ev(p)) == m.response ==> p == evlen - 2
 //@   ensures [reply-carries-answer-and-all-outgoing] forall p int :: old(evlen) <= p && p < evlen && isSend(ev(p)) && evch(ev(p)) == m.response ==>
 //@             is(evval(ev(p)), flowAction) && evval(ev(p)).(flowAction).response != nil &&
 //@             len(evval(ev(p)).(flowAction).sequenceFlows) == len(task.wiring.outgoing) &&
@@ -564,13 +565,15 @@ package bpmn
 //@                 at(resFields(task.element), a).Name == k
 
 //@ func (*genericTask).NextAction
-//@   prop C01 C08
+//@   prop C01 C08 C07
 //@   requires task.wiring != nil
 //@   ensures [fresh-buffered-reply-channel] result != nil && fresh(result) && chancap(result) == 1
 //@   ensures [one-request-sent-last] isSend(ev(evlen - 1)) && evch(ev(evlen - 1)) == task.mch &&
 //@             is(evval(ev(evlen - 1)), nextTaskActionMessage) && evval(ev(evlen - 1)).(nextTaskActionMessage).response == result
 //@   ensures [run-spawned-at-most-once] forall a int, b int :: old(evlen) <= a && a < b && b < evlen && isSpawn(ev(a)) ==> !isSpawn(ev(b))
 //@   ensures [run-spawned-only-when-idle] (exists a int :: old(evlen) <= a && a < evlen && isSpawn(ev(a))) ==> old(task.active) == 0
+//@   ensures [the-loop-is-registered-as-a-sender-where-it-is-started @C07]
+//@             count(Call, code("tracing|ITracer.RegisterSender")) - old(count(Call, code("tracing|ITracer.RegisterSender"))) == count(Spawn, code("(*genericTask).run")) - old(count(Spawn, code("(*genericTask).run")))
 
 //@ func (*genericTask).Cancel
 //@   prop C10
@@ -578,18 +581,26 @@ package bpmn
 //@   ensures evlen == old(evlen) + 1 && isSend(ev(old(evlen))) && evch(ev(old(evlen))) == task.mch && is(evval(ev(old(evlen))), cancelMessage) &&
 //@           evval(ev(old(evlen))).(cancelMessage).response == result
 
+// (The task's loop and its per-request workers send traces on the instance's tracer as registered senders, released once
+// when they end - see the sub-process's loop.)
 //@ func (*genericTask).run
 //@   prop C01 C08 C10 C07
 //@   flag spawnpre
 //@   requires task.wiring != nil
-//@   ensures [exit-by-cancel-or-context] isTrace(ev(evlen - 1)) && is(evval(ev(evlen - 1)), CancellationFlowNodeTrace) ||
-//@             (isSend(ev(evlen - 1)) && is(evval(ev(evlen - 1)), bool) && evval(ev(evlen - 1)).(bool) && task.active == 0)
+//@   ensures [a-loop-that-sends-traces-is-a-registered-sender-released-exactly-once-on-exit @C07] count(Call, code("tracing|ISenderHandle.Done")) == old(count(Call, code("tracing|ISenderHandle.Done"))) + 1
+//@   ensures [exit-by-cancel-or-context-then-the-sender-is-released] isCall(ev(evlen - 1)) && evch(ev(evlen - 1)) == code("tracing|ISenderHandle.Done") &&
+//@             (isTrace(ev(evlen - 2)) && is(evval(ev(evlen - 2)), CancellationFlowNodeTrace) ||
+//@              (isSend(ev(evlen - 2)) && is(evval(ev(evlen - 2)), bool) && evval(ev(evlen - 2)).(bool) && task.active == 0))
 //@   loop 1 for
 //@     cancels ctx
 //@     invariant task.wiring != nil && task.wiring == old(task.wiring) && task.mch == old(task.mch)
+//@     invariant count(Call, code("tracing|ISenderHandle.Done")) == old(count(Call, code("tracing|ISenderHandle.Done")))
+//@     iter ensures [a-worker-is-registered-as-a-sender-before-it-is-started @C07]
+//@       count(Call, code("tracing|ITracer.RegisterSender")) - old(count(Call, code("tracing|ITracer.RegisterSender"))) == count(Spawn, code("(*genericTask).run$1")) - old(count(Spawn, code("(*genericTask).run$1")))
 //@     iter ensures [request-spawns-one-worker]
 //@       isRecv(ev(old(evlen))) && evch(ev(old(evlen))) == task.mch && is(evval(ev(old(evlen))), nextTaskActionMessage) ==>
-//@         evlen == old(evlen) + 2 && isSpawn(ev(old(evlen) + 1)) && evch(ev(old(evlen) + 1)) == code("(*genericTask).run$1")
+//@         evlen == old(evlen) + 3 && isCall(ev(old(evlen) + 1)) && evch(ev(old(evlen) + 1)) == code("tracing|ITracer.RegisterSender") &&
+//@         isSpawn(ev(old(evlen) + 2)) && evch(ev(old(evlen) + 2)) == code("(*genericTask).run$1")
 //@     iter ensures [refused-cancel-answers-false]
 //@       isRecv(ev(old(evlen))) && evch(ev(old(evlen))) == task.mch && is(evval(ev(old(evlen))), cancelMessage) ==>
 //@         evlen == old(evlen) + 3 && isTrace(ev(old(evlen) + 1)) && isSend(ev(old(evlen) + 2)) &&
